@@ -7,7 +7,7 @@
      3. a single quote, then any number of (backslash + any character | a character that is neither
         backslash nor single quote), then a single quote;
      4. the same with double quotes.
-   replacer gives one space for a match that starts with a slash and the match itself otherwise.
+   replacer gives, for a match that starts with a slash, its line breaks (one space if it has none), and the match itself otherwise.
    re.sub scans left to right; on a match the replacement is emitted and scanning resumes after the
    match; otherwise the character is copied.  [match_at] is the alternation at one position, [lex]
    the scan (a skip counter makes it structural), [del_comments] the substituted text.
@@ -55,7 +55,7 @@ Fixpoint lit_len (q : ascii) (esc : bool) (l : chars) : option nat :=
 
 Inductive token :=
 | TCode (c : ascii)          (* copied character *)
-| TComment (s : chars)       (* a match starting with a slash: replaced by one space *)
+| TComment (s : chars)       (* a match starting with a slash: replaced by its line breaks / one space *)
 | TLit (s : chars).          (* a character / string literal: kept *)
 
 Definition dq : ascii := ascii_of_nat 34.
@@ -98,8 +98,13 @@ Fixpoint lex_from (skip : nat) (l : chars) : list token :=
   end.
 Definition lex (l : chars) : list token := lex_from 0 l.
 
+(* replacer: a comment is replaced by its line breaks, or by one space when it has none *)
 Definition emit (t : token) : chars :=
-  match t with TCode c => [c] | TComment _ => [" "] | TLit s => s end.
+  match t with
+  | TCode c => [c]
+  | TComment s => match filter is_nl s with [] => [" "] | nls => nls end
+  | TLit s => s
+  end.
 
 Definition del_comments (l : chars) : chars := flat_map emit (lex l).
 
